@@ -22,7 +22,8 @@ RULE = (
     "coordinates / exception type+message / generated text / visit log) equals the result of the same call run alone; for parses "
     "'alone' is computed by a private copy of the pycparser package created for that one call (module- and class-level state "
     "of the classes under test cannot reach it), and for the pool programs additionally by a forked process without any parsing "
-    "history. Programs carry their own file names (f0.c, f1.c, ...) and directives with and without a file name. "
+    "history; generator instances of four classes (stock CGenerator and subclasses overriding visit_ID / visit_Constant / "
+    "visit_Pragma) used in drawn orders must each produce what their class produces in a private copy. Programs carry their own file names (f0.c, f1.c, ...) and directives with and without a file name. "
     "Non-trivial: the schedule switches between instances while one of them is inside a nested scope and the programs share a "
     "name with different meaning; distinct by construction (exhaustive) / by hash of (programs, schedule)."
 )
@@ -260,6 +261,73 @@ def check_parsers(srcs, schedule, st, subcheck="parsers"):
 
 
 
+def generator_classes(base):
+    """a stock generator and two subclasses with their own visit_X methods, built
+    on `base` (the CGenerator under test, or the one of a private copy)"""
+
+    class Renamer(base):
+        def visit_ID(self, n):
+            return "my_" + n.name
+
+    class Hexer(base):
+        def visit_Constant(self, n):
+            try:
+                return hex(int(n.value, 0))
+            except (ValueError, TypeError):
+                return n.value
+
+    class Quiet(Renamer):
+        def visit_Pragma(self, n):
+            return ""
+
+    return [base, Renamer, Hexer, Quiet]
+
+
+def check_generator_subclasses(srcs, order, st):
+    """Generator instances of different classes (a stock CGenerator and
+    subclasses overriding visit_ID / visit_Constant / visit_Pragma) used one
+    after the other in a drawn order: each must produce what the same class
+    produces in a private copy of the package that has generated nothing else."""
+    from ..pristine import drop_package, fresh_package
+
+    refs = {}
+    if True:
+        # the reference: every class on every program, each class in its own copy
+        for ci in range(4):
+            n2, cp2, cg2, _, _ = fresh_package()
+            try:
+                cls2 = generator_classes(cg2.CGenerator)[ci]
+                for si, s in enumerate(srcs):
+                    try:
+                        ast2 = cp2.CParser().parse(s, "f.c")
+                        refs[(si, ci)] = cls2().visit(ast2)
+                    except RecursionError:
+                        refs[(si, ci)] = None
+                    except Exception as e:  # noqa: BLE001
+                        refs[(si, ci)] = ("exc", type(e).__name__)
+            finally:
+                drop_package(n2)
+    classes = generator_classes(c_generator.CGenerator)
+    asts = {}
+    for si, s in enumerate(srcs):
+        try:
+            asts[si] = c_parser.CParser().parse(s, "f.c")
+        except Exception:  # noqa: BLE001
+            pass
+    for si, ci in order:
+        if si not in asts or refs.get((si, ci)) is None:
+            continue
+        st.evaluations += 1
+        try:
+            got = classes[ci]().visit(asts[si])
+        except RecursionError:
+            continue
+        except Exception as e:  # noqa: BLE001
+            got = ("exc", type(e).__name__)
+        if got != refs[(si, ci)]:
+            fail("generators", ("gensub", list(srcs), [list(o) for o in order]), srcs[si], "a %s instance used after instances of other generator classes (order %s) produces text different from the same class used alone" % (classes[ci].__name__, order[:12]), "generator-class-state")
+
+
 def check_generators(asts, schedule, st):
     """interleave CGenerator.visit calls of several generators"""
     n = len(asts)
@@ -449,6 +517,10 @@ def random_shard(arg):
                 if what == 2:
                     check_generators(asts, schedule, st)
                     st.classes["generator_schedules"] += 1
+                    if c.chance(0.25):
+                        order = [(c.below(len(srcs)), c.below(4)) for _ in range(c.int(2, 8))]
+                        check_generator_subclasses(srcs, order, st)
+                        st.classes["generator_subclass_orders"] += 1
                 else:
                     check_visitors(asts, schedule, st)
                     st.classes["visitor_schedules"] += 1
@@ -523,6 +595,8 @@ def replay(subcheck, case):
     st = Stats()
     if case[0] == "parsers":
         check_parsers(case[1], case[2], st)
+    elif case[0] == "gensub":
+        check_generator_subclasses(list(case[1]), [tuple(o) for o in case[2]], st)
     elif case[0] == "free":
         r = free_threads_shard((case[1], case[2]))
         if r.failures:
